@@ -71,17 +71,17 @@ def replay_shape(run, F, E):
 def run(run):
     hcfgs = [c for c in facts.configs(run.tier) if facts.cfg_has(c, 'H')]
     run.require(hcfgs, 'no configuration with transition history')
-    flow_rules.flow_obligations(run, {'C11.b', 'C11.c', 'C02.d'}, cfgs=hcfgs)
+    run.guard('flow obligations', flow_rules.flow_obligations, run, {'C11.b', 'C11.c', 'C02.d'}, cfgs=hcfgs)
     for c in hcfgs:
         for v in facts.variants(run.tier):
             F = facts.load('w_core', c, v)
             E = effects.Effects(F)
             run.count('fact units')
-            history_writers(run, F, E)
-            replay_shape(run, F, E)
-            records.copy_ctor_coverage(run, 'C11.d', F)
+            run.guard('history writers', history_writers, run, F, E)
+            run.guard('replay shape', replay_shape, run, F, E)
+            run.guard('copy ctor coverage', records.copy_ctor_coverage, run, 'C11.d', F)
             from rules import c02
-            c02.drop_condition(run, F)
+            run.guard('drop condition', c02.drop_condition, run, F)
             run.relabel('C02.f', 'C11.e')
             facts.drop(F)
             cfgmod.clear_cache()
